@@ -164,11 +164,13 @@ pub fn reopen_fd_through_proc(
 ) -> io::Result<File> {
     let name = CString::new(format!("{}", fd.as_raw_fd()).as_str())?;
     // Clear the `O_NOFOLLOW` flag if it is set since we need to follow the `/proc/self/fd` symlink
-    // to get the file.
+    // to get the file. Nothing is ever created through `/proc/self/fd` (and no mode is passed):
+    // clear `O_CREAT` and the `__O_TMPFILE` bit of `O_TMPFILE` too (`O_DIRECTORY`, the other bit
+    // of `O_TMPFILE`, is a legitimate flag of an open).
     openat(
         proc_self_fd,
         &name,
-        flags & !libc::O_NOFOLLOW & !libc::O_CREAT,
+        flags & !libc::O_NOFOLLOW & !libc::O_CREAT & !(libc::O_TMPFILE & !libc::O_DIRECTORY),
         0,
     )
 }
